@@ -187,12 +187,16 @@ def handler_step(op, n, created, last, now, d1, t):
     model = dict(_snapshot(mgr))
     CLOCK.set([now, now + d1])
     tid = _target(n, t)
-    if op == "initialize":
+    if op == "initialize" or op == "initialize_sid":
         msg = JM.JSONRPCMessage(jsonrpc="2.0", id=1, method="initialize",
                                 params={"protocolVersion": "2025-03-26", "clientInfo": {"name": "cli", "version": "9"}, "capabilities": {}})
-        resp, sid = drive(h.handle_message(msg, None))
+        # a (re-)initialize may arrive on a connection that already carries a session id - live or not
+        resp, sid = drive(h.handle_message(msg, tid if op == "initialize_sid" else None))
         if resp is None or sid is None:
             return "initialize:no-response-or-session"
+        if op == "initialize_sid" and tid in model:
+            m = model[tid]
+            model[tid] = (m[0], m[1], now, m[3], m[4])  # dispatch updates the activity of the presented session, nothing else
         snap = _snapshot(mgr)
         if sid in model or sid not in snap:
             return "initialize:session-id"
